@@ -635,7 +635,7 @@ class Drillhole(Points):
             ]
         else:
             depths, indices = merge_arrays(
-                self.depths.values,
+                self.depths.format_values(self.depths.values),
                 depth,
                 return_mapping=True,
                 collocation_distance=collocation_distance,
